@@ -87,7 +87,16 @@ uint64_t vp_alloc_calls(void) { return S().alloc_calls; }
 uint64_t vp_alloc_failed(void) { return S().alloc_failed; }
 uint64_t vp_send_refused(void) { return S().refused; }
 
-void vp_fill_pattern(int byte) { S().pattern = byte & 0xFF; }
+void vp_fill_pattern(int byte) { S().pattern = byte < 0 ? byte : (byte & 0xFF); }
+/* pattern < 0: fresh memory looks like small records (8 octets each: two small numbers, padding, a small 32-bit number) instead of one repeated byte -
+   stale table rows, counters and flags as a recycled block would hold them; -1-phase selects which */
+static void structured_fill(uint8_t *p, size_t size, int pattern) {
+    unsigned phase = (unsigned)(-1 - pattern);
+    for (size_t k = 0; k < size; k++) {
+        unsigned rec = (unsigned)(k / 8) + phase, f = (unsigned)(k % 8);
+        p[k] = f == 0 ? (uint8_t)(rec & 3) : f == 1 ? (uint8_t)((rec >> 2) & 3) : f == 4 ? (uint8_t)((rec >> 4) & 7) : 0;
+    }
+}
 size_t vp_live_blocks(void) { return S().live.size(); }
 size_t vp_live_bytes(void) { return S().live_bytes; }
 size_t vp_high_bytes(void) { return S().high_bytes; }
@@ -131,7 +140,7 @@ void *lltd_port_malloc(size_t size) {
     }
     void *p = malloc(size ? size : 1);
     if (!p) return nullptr;
-    memset(p, s.pattern, size);
+    if (s.pattern < 0) structured_fill((uint8_t *)p, size, s.pattern); else memset(p, s.pattern, size);
     s.live[p] = size;
     s.live_bytes += size;
     if (s.live_bytes > s.high_bytes) s.high_bytes = s.live_bytes;
